@@ -258,7 +258,6 @@ func (mp *Pool) Add(t *transaction.Transaction, fee Feer, data ...any) error {
 			}
 			mp.removeInternal(h)
 		}
-		mp.oracleResp[id] = t.Hash()
 	}
 
 	// Remove conflicting transactions.
@@ -338,6 +337,10 @@ func (mp *Pool) Add(t *transaction.Transaction, fee Feer, data ...any) error {
 		mp.verifiedTxes[n] = pItem
 	}
 	mp.verifiedMap[t.Hash()] = t
+	// Register the oracle response only now that the transaction is known to fit.
+	if attrs := t.GetAttributes(transaction.OracleResponseT); len(attrs) != 0 {
+		mp.oracleResp[attrs[0].Value.(*transaction.OracleResponse).ID] = t.Hash()
+	}
 	// Add conflicting hashes to the mp.conflicts list.
 	for _, attr := range t.GetAttributes(transaction.ConflictsT) {
 		hash := attr.Value.(*transaction.Conflicts).Hash
